@@ -1,6 +1,6 @@
 (* Main.v — request dispatcher of the extracted model binary: one s-expression request per line,
    one s-expression answer per line. Definitions only. *)
-From FV Require Import Base AddrRange RouteMap Graph Netlist Hw Check Jobs Desc Build Paths Compile Routing Emit Side XYSide RefOracle.
+From FV Require Import Base AddrRange RouteMap Graph Netlist Hw Check Jobs Desc Build Paths Compile Routing Emit Side XYSide RefOracle Cli.
 
 Definition sx_expected (x : sx) : res (string * (Z * Z)) :=
   match x with
@@ -137,6 +137,30 @@ Definition dispatch (cmd : string) (args : list sx) : res sx :=
         | Err e => Ok (L [A "err"; A (sanitize e)])
         end
     | _ => Err "xy: arity"
+    end
+  else if str_eqb cmd "clirun" then
+    (* (clirun (od op ot) ((stage args (file ...)) ...) ((channel content) ...)) -> failures: an observed run of the real
+       command line against the hand model of the pipeline (Cli.chk_cli_run) *)
+    match args with
+    | [L [od; op; ot]; calls; outs] =>
+        do od <- sx_bool od; do op <- sx_bool op; do ot <- sx_bool ot;
+        do calls <- sx_listof (fun x => match x with
+                                        | L [A nm; A ar; fs] =>
+                                            (* atoms carry no blanks: "-" = no argument, "Network,args.config" = the model's text *)
+                                            let ar := if str_eqb ar "-" then "" else if str_eqb ar "Network,args.config"
+                                                      then "Network, args.config" else ar in
+                                            do fs <- sx_listof sx_str fs; Ok (nm, (ar, fs))
+                                        | _ => Err "stage expected"
+                                        end) calls;
+        do outs <- sx_listof (fun x => match x with L [A ch; A co] => Ok (ch, co) | _ => Err "output expected" end) outs;
+        Ok (fails_to_sx (chk_cli_run (od, (op, ot)) {| cr_calls := calls; cr_outs := outs |}))
+    | _ => Err "clirun: arity"
+    end
+  else if str_eqb cmd "clifail" then
+    (* (clifail rc (file ...)) -> failures: a run whose stage raised *)
+    match args with
+    | [rc; fs] => do rc <- sx_Z rc; do fs <- sx_listof sx_str fs; Ok (fails_to_sx (chk_cli_failed rc fs))
+    | _ => Err "clifail: arity"
     end
   else if str_eqb cmd "nl-echo" then
     match args with [x] => do n <- sx_netlist x; Ok (x_netlist n) | _ => Err "nl-echo: arity" end
